@@ -182,7 +182,7 @@ def run(argv):
         if k == 0:
             d["kwargs"]["bulk_prefix"] = "%"          # F12 witness always first
         if k == 1:
-            d["rate_modifier"] = {"2": "1.0e-10"}      # F19 witness (export path) always second
+            d["rate_modifier"] = {"2": "1.0e-10", "5": 0.0}      # F19 witness (export path) always second; a numeric zero too
         while k == 2 and d["replacement"]:
             d = gen_desc(rng, k)
         if k == 2:
